@@ -297,10 +297,10 @@ func fmtFloat(f float64, bits int) string {
 	if math.IsInf(f, -1) {
 		return "-Inf"
 	}
-	if bits == 32 {
-		return strconv.FormatFloat(f, 'e', 5, 32)
-	}
-	return strconv.FormatFloat(f, 'e', 14, 64)
+	// the shortest decimal that reads back as the same float: equal (as a number) to the literal the
+	// value was read from whenever that literal has <= 15 (float32: <= 6) significant digits or is
+	// itself such a shortest decimal (the float64 neighbours of a bound)
+	return strconv.FormatFloat(f, 'e', -1, bits)
 }
 
 func dump(v reflect.Value) any {
